@@ -17,7 +17,7 @@ RULE = ("cases = site-model kind x (shape 1e-2..1e2, p_inv in [0,0.99], K 1..16,
 ASSUMPTIONS = ["the identities of the statement are the specification; individual Weibull rates are compared with the median-of-equiprobable-bins discretisation written from the formula"]
 BUDGET = {"quick": 60, "thorough": 400}
 ROUNDS = {"thorough": 16}
-FLOORS = {"overlay.C05.judged": {"quick": 100, "thorough": 1500}, "read_orders": 3, "identity_checks": 200, "after_update_checks": 100, "batched_slices": 50, "kinds": 4, "nested_batches": 20, "api_built_anonymous_parameters": 100, "updates_in_place_same_object": 200, "updates_through_another_view": 200, "interrupted_notifications": 50}
+FLOORS = {"overlay.C05.judged": {"quick": 100, "thorough": 1500}, "read_orders": 3, "identity_checks": 200, "after_update_checks": 100, "batched_slices": 50, "kinds": 4, "nested_batches": 20, "api_built_anonymous_parameters": 100, "updates_in_place_same_object": 200, "updates_through_another_view": 200, "interrupted_notifications": 50, "interrupted_model_notifications": 50}
 
 
 def _cases(tier, seed):
@@ -134,6 +134,38 @@ def _run_case(case):
         d2["site.shape.unres"].tensor = torch.tensor([np.log(s_new)], dtype=torch.float64)
         C["interrupted_notifications"] = 1
         _check(V, C, dict(s, shape=s_new), _np(m2.rates(), kind), _np(m2.probabilities(), kind), "after an update that followed an interrupted notification")
+
+    if style_seed % 5 == 1 and kind != "constant":
+        # fault injection at the model's own listeners (what a tree likelihood, a monitor, an external engine are): one that reads the rates
+        # the moment it is told of the change, and one that raises once; the values read then and afterwards are those of the new parameters
+        m3, d3 = tt.load(gm.site_json(s))
+        _ = m3.rates(), m3.probabilities()
+        key = "shape" if "shape" in s else "pinv"
+        new1 = float(s[key] * 0.8)
+        seen = {}
+
+        class Eager:
+            def handle_model_changed(self, model, obj, index):
+                seen["r"], seen["p"] = _np(model.rates(), kind), _np(model.probabilities(), kind)
+
+        class FailingOnce:
+            armed = True
+
+            def handle_model_changed(self, model, obj, index):
+                if self.armed:
+                    self.armed = False
+                    raise KeyError("injected failure in a model listener")
+
+        m3.add_model_listener(Eager())
+        m3.add_model_listener(FailingOnce())
+        try:
+            d3["site." + key].tensor = torch.tensor([new1], dtype=torch.float64)
+        except KeyError:
+            pass
+        if "r" in seen:
+            _check(V, C, dict(s, **{key: new1}), seen["r"], seen["p"], "read by a listener while it is told of the change")
+        _check(V, C, dict(s, **{key: new1}), _np(m3.rates(), kind), _np(m3.probabilities(), kind), "after an update whose model notification was interrupted")
+        C["interrupted_model_notifications"] = 1
 
     def read():
         """rates() and probabilities() in a generated order (either accessor may be the one that finds the model dirty), sometimes twice"""
